@@ -28,6 +28,8 @@ pub mod c11;
 pub mod c12;
 #[cfg(feature = "full")]
 pub mod c17;
+#[cfg(feature = "full")]
+pub mod streaming;
 pub mod c18;
 
 #[derive(Default)]
@@ -46,6 +48,9 @@ macro_rules! drivers {
     ($( $id:literal => $m:ident ),* $(,)?) => {
         #[cfg(feature = "full")]
         pub fn generate(property: &str, run_seed: u64) -> Scenario {
+            if streaming::wants_streaming(property, run_seed) {
+                return streaming::generate(property, run_seed);
+            }
             match property {
                 $( $id => $m::generate(run_seed), )*
                 "C18" => c18::generate(run_seed),
@@ -84,6 +89,13 @@ fn dispatch<S: crate::schemes::Scheme>(scn: &Scenario, log: &EventLog) -> RunRes
 
 pub fn execute(scn: &Scenario, keep_log: bool) -> (RunResult, Vec<String>) {
     let log = EventLog::new(keep_log);
+    #[cfg(feature = "full")]
+    if scn.scheme.starts_with("streaming-") {
+        let mut res = streaming::run(scn, &log);
+        res.log_digest = log.digest();
+        res.events = log.count();
+        return (res, log.lines());
+    }
     let mut res = crate::with_scheme!(scn.scheme.as_str(), dispatch(scn, &log));
     res.log_digest = log.digest();
     res.events = log.count();
